@@ -53,6 +53,18 @@ def run_model(ctx):
             rows = [int(c) for c in a.chunks[0]]
             desc = {"qr": (m, n), "row_chunks": rows}
             cases.append({"expr": f"Bool.eqb (tsqr_accepts {cnatlist(rows)} {n}) {cbool(o == 'accept')}", "desc": desc, "show": f"tsqr_accepts {cnatlist(rows)} {n}"})
+            if o == "accept":
+                # an accepted factorisation must run to the end and reproduce the input (a plan that is accepted and then
+                # dies in the middle of execution is exactly what C17 forbids)
+                try:
+                    with warnings.catch_warnings():
+                        warnings.simplefilter("ignore")
+                        q, rr = (np.asarray(t.compute()) for t in y)
+                    if q.shape[0] != m or not np.allclose(q @ rr, np.random.RandomState(0).rand(m, n)):
+                        ctx.fail("accepted-then-wrong:tsqr", f"qr of a {m}x{n} array with row chunks {rows} was accepted but Q@R != A", desc)
+                except Exception as e:
+                    ctx.fail("accepted-then-failed:tsqr", f"qr of a {m}x{n} array with row chunks {rows} was accepted and failed while running: "
+                                                          f"{type(e).__name__}: {str(e)[:120]}", desc)
         else:
             nb = r.choice([1, 2, 3, 5, 6, 7, 10, 11, 15, 25, 26, 30, 50])
             a = xp.asarray(np.zeros((nb,)), chunks=(1,), spec=spec)
